@@ -443,6 +443,20 @@ func (f *Factory) Div(a, b *Term) *Term {
 		if lo, hi, ok := f.Range(a); ok && b.K.Sign() > 0 && lo.Sign() >= 0 && hi.Cmp(b.K) < 0 {
 			return f.I64(0)
 		}
+		// (x - x mod k) div k = x div k (the "mask the high bits, then shift" idiom)
+		if b.K.Sign() > 0 && a.Op == OAdd && len(a.Args) == 2 {
+			for i := 0; i < 2; i++ {
+				x, m := a.Args[i], a.Args[1-i]
+				if m.Op == OMul && len(m.Args) == 2 && m.Args[0].Op == OConst && m.Args[0].K.Cmp(big.NewInt(-1)) == 0 &&
+					m.Args[1].Op == OMod && m.Args[1].Args[0] == x && m.Args[1].Args[1].Op == OConst && m.Args[1].Args[1].K.Cmp(b.K) == 0 {
+					return f.Div(x, b)
+				}
+			}
+		}
+		// (k * y) div k = y
+		if b.K.Sign() > 0 && a.Op == OMul && len(a.Args) == 2 && a.Args[0].Op == OConst && a.Args[0].K.Cmp(b.K) == 0 {
+			return a.Args[1]
+		}
 		// (k*b*x + r) div b where all coefficients divisible: exact division of polynomial
 		if b.K.Sign() > 0 && f.Distribute {
 			if q, ok := f.divExact(a, b.K); ok {
@@ -1200,6 +1214,15 @@ func (f *Factory) bitop(op Op, w int, a, b *Term) *Term {
 			if b.K.BitLen()-1 == int(b.K.TrailingZeroBits()) {
 				k := b.K.BitLen() - 1
 				return f.Mul(f.Int(b.K), f.Mod(f.Div(a, f.Int(pow2(k))), f.I64(2)))
+			}
+			// contiguous run of k ones starting at bit t: 2^t * ((a div 2^t) mod 2^k)
+			if b.K.Sign() > 0 {
+				t := int(b.K.TrailingZeroBits())
+				run := new(big.Int).Rsh(b.K, uint(t))
+				r1 := new(big.Int).Add(run, big.NewInt(1))
+				if r1.BitLen()-1 == int(r1.TrailingZeroBits()) {
+					return f.Mul(f.Int(pow2(t)), f.Mod(f.Div(a, f.Int(pow2(t))), f.Int(r1)))
+				}
 			}
 		}
 		if a == b {
